@@ -209,10 +209,12 @@ def param_sets(ctx):
                 extreme.append(c)
     seen = set()
     out = []
+    n_single = 1 + len(names) * len(SOLVE_GRID)
     for (combo_list, solve) in ((combos, True), (extreme, False)):
-        for c in combo_list:
-            for seed in seeds:
-                for (w, l) in sizes:
+        for ci, c in enumerate(combo_list):
+            pair = solve and ci >= n_single           # two-at-a-time combinations (thorough): on a reduced seed/size grid
+            for seed in (seeds if not pair else (0, 47)):
+                for (w, l) in (sizes if not pair else [(1, 1), (1, 3), (2, 2), (3, 2), (3, 3)]):
                     for mr in ((1, 6) if thorough else (6,)):
                         for fd in (False, True):
                             p = dict(c, seed=seed, width=w, length=l, max_reward=mr, force_down=fd)
